@@ -29,6 +29,7 @@ type IncOpts struct {
 	Fault    *FaultSpec
 	Fault2   *FaultSpec // a second, independent failure in the same run
 	NoDur    bool
+	NoEarlyTimers bool // simrt.Config.NoEarlyTimers
 	MinDur   int64 // lower bound for command durations (coarse-clock runs)
 	TZOffset int   // local time zone of this incarnation (seconds east of UTC)
 	GapNS    int64 // wall-clock time between the end of this incarnation and the next (default 1h)
@@ -92,7 +93,7 @@ func InitFS(s *simrt.Sim, w *WF) {
 
 func RunInc(w *WF, t *simrt.Tape, root *simrt.Inode, nextIno int, o IncOpts) *Inc {
 	cfg := simrt.Config{Strategy: o.Strategy, KillAt: o.KillAt, DiskFullAt: o.DiskFullAt, ClockGran: o.ClockGran, TraceOn: o.Trace, Race: o.Race,
-		PipeCap: o.PipeCap, TimerPick: 0.03, StepCap: o.StepCap, Env: map[string]string{}}
+		PipeCap: o.PipeCap, NoEarlyTimers: o.NoEarlyTimers, TimerPick: 0.03, StepCap: o.StepCap, Env: map[string]string{}}
 	if w.Bufsize > 0 {
 		cfg.Env["SCIPIPE_BUFSIZE"] = fmt.Sprint(w.Bufsize)
 	}
